@@ -19,4 +19,17 @@ pub(crate) mod verif_idpf_util {
         Ok(IdpfOutputShare::Inner(VI::zero(&s.inner_node_value_parameter)))
     }
     pub fn placeholder_public_share<VI, VL>() -> IdpfPublicShare<VI, VL> { unsafe { core::mem::MaybeUninit::<IdpfPublicShare<VI, VL>>::zeroed().assume_init() } }
+    /// Contract stub of Idpf::gen_with_random (first clause of its contract, visible in the source: the keys returned are
+    /// `[Seed(random[0]), Seed(random[1])]`, i.e. the raw randomness; the public share is opaque here - C06).
+    pub static mut GEN_CALLS: usize = 0;
+    pub fn gen_with_random_stub<VI, VL, M: IntoIterator<Item = VI>>(_s: &Idpf<VI, VL>, _input: &IdpfInput, inner_values: M, leaf_value: VL,
+        _ctx: &[u8], _nonce: &[u8], random: &[[u8; 16]; 2]) -> Result<(IdpfPublicShare<VI, VL>, [crate::vdaf::xof::Seed<16>; 2]), crate::vdaf::VdafError>
+    where VI: IdpfValue, VL: IdpfValue {
+        unsafe { GEN_CALLS += 1; }
+        core::mem::forget(inner_values); core::mem::forget(leaf_value);
+        Ok((placeholder_public_share::<VI, VL>(), [crate::vdaf::xof::Seed::from_bytes(random[0]), crate::vdaf::xof::Seed::from_bytes(random[1])]))
+    }
+    /// IdpfInput::len for placeholder inputs (the bit string itself is never inspected once gen_with_random is stubbed)
+    pub static mut INPUT_LEN: usize = 0;
+    pub fn input_len_stub(_s: &IdpfInput) -> usize { unsafe { INPUT_LEN } }
 }
